@@ -113,6 +113,14 @@ Example C06_timeout_example : (* 500 ms at the start; one reply after 1 s: 0.562
   (rtt_timeout rtt0 == MIN_TIMEOUT)%Q /\ (MIN_TIMEOUT == 1 # 2 -> rtt_timeout (rtt_run [1%Q]) == 1)%Q.
 Proof. split; [unfold rtt_timeout, rtt0; cbn [r_est r_dev]; ring|intros _; vm_compute; reflexivity]. Qed.
 
+(* non-vacuity for the estimator: a reply that is late (1.5 s) and then one that is late but faster than the running
+   estimate (0.53 s): the estimate moves down, the deviation stays non-negative, the timeout stays above the floor *)
+Example C06_late_reply_faster_than_the_estimate :
+  let r := rtt_run [3 # 2; 53 # 100] in
+  (r_est r < r_est (rtt_run [3 # 2]))%Q /\ (0 <= r_dev r)%Q /\ (MIN_TIMEOUT <= rtt_timeout r)%Q.
+Proof. vm_compute. repeat split; discriminate. Qed.
+
+Print Assumptions C06_late_reply_faster_than_the_estimate.
 Print Assumptions C06_lookup_done_after_timeout.
 Print Assumptions C06_answered_request_not_inflight.
 Print Assumptions C06_put_store_phase_terminates.
